@@ -88,6 +88,10 @@ func (s *State) Get(key StoreKey) ([]byte, error) {
 		result, err := s.txSession.Get(key)
 		if err == nil {
 			// if got result, return directly
+			if isTombstone(result) {
+				// deleted in this session: the key is absent, do not fall through
+				return nil, nil
+			}
 			return result, err
 		}
 	}
@@ -96,11 +100,34 @@ func (s *State) Get(key StoreKey) ([]byte, error) {
 	result, err := s.cache.Get(key)
 	if err == nil {
 		// if got result, return directly
+		if isTombstone(result) {
+			// deleted in this block: the key is absent, do not fall through
+			return nil, nil
+		}
 		return result, err
 	}
 
 	// if didn't get result in cache, get from ChainState
 	return s.cs.Get(key)
+}
+
+// isTombstone reports whether an overlay value is the marker written by Delete
+func isTombstone(value []byte) bool {
+	return bytes.Equal(value, []byte(TOMBSTONE))
+}
+
+// deletedInCache reports whether the block overlay holds a delete marker for key.
+// It looks below the gas wrapper so that no gas is charged for the look-up.
+func (s *State) deletedInCache(key StoreKey) bool {
+	var raw Store = s.cache
+	switch c := s.cache.(type) {
+	case *GasStore:
+		raw = c.SessionedDirectStorage
+	case *NoGasStore:
+		raw = c.SessionedDirectStorage
+	}
+	value, err := raw.Get(key)
+	return err == nil && isTombstone(value)
 }
 
 func (s *State) Set(key StoreKey, value []byte) error {
@@ -118,6 +145,10 @@ func (s *State) Exists(key StoreKey) bool {
 		// check existence in txSession
 		exist := s.txSession.Exists(key)
 		if exist {
+			// a delete marker means the key was removed in this session
+			if value, err := s.txSession.Get(key); err == nil && isTombstone(value) {
+				return false
+			}
 			return exist
 		}
 	}
@@ -129,6 +160,10 @@ func (s *State) Exists(key StoreKey) bool {
 		return s.cs.Exists(key)
 	}
 
+	// a delete marker means the key was removed in this block
+	if s.deletedInCache(key) {
+		return false
+	}
 	return exist
 }
 
